@@ -336,15 +336,16 @@ def install_linalg_hooks(ctx):
 
     def j_normalize(c, a, k, res, pv):
         v = a[0]
+        dec = a[1] if len(a) > 1 else k.get('decimals', 18)
         mag2 = sum(F(x) ** 2 for x in v)
         if mag2 == 0:
             return False
-        n2 = sum(F(x) ** 2 for x in res)
-        par = all(abs(F(res[i]) * F(v[j]) - F(res[j]) * F(v[i])) <= F(1e-12) * max(F(1), mag2) ** 1
-                  for i in range(len(v)) for j in range(len(v)))
-        same_dir = sum(F(x) * F(y) for x, y in zip(res, v)) > 0
-        c.check(abs(n2 - 1) <= F(1e-12) and par and same_dir, 'helper/vector_normalize', 'vector_normalize(%r)=%r is not the '
-                'unit vector in that direction' % (v, res), what='helper')
+        # the result is rounded to `decimals` places: compare with the exact unit vector within that rounding
+        tolf = max(1e-12, 10.0 ** (-int(dec)))
+        mag = math.sqrt(float(mag2))
+        ok = len(res) == len(v) and all(abs(r - float(x) / mag) <= tolf for r, x in zip(res, v))
+        c.check(ok, 'helper/vector_normalize', 'vector_normalize(%r, decimals=%r)=%r is not the unit vector in that direction'
+                % (v, dec, res), what='helper')
         return True
 
     def j_binom(c, a, k, res, pv):
@@ -360,11 +361,12 @@ def install_linalg_hooks(ctx):
         if abs(start - stop) <= 10e-8 or num < 2:
             return False
         ok = len(res) == num
+        dec = a[3] if len(a) > 3 else k.get('decimals', 18)
         if ok:
             sc = max(abs(start), abs(stop), 1.0)
             for i, x in enumerate(res):
                 ex = F(start) + (F(stop) - F(start)) * i / (num - 1)
-                if abs(F(x) - ex) > F(1e-14) * F(sc):
+                if abs(F(x) - ex) > F(max(1e-14 * sc, 10.0 ** (-int(dec)))):
                     ok = False
         c.check(ok, 'helper/linspace', 'linspace(%r,%r,%r) = %r is not the evenly spaced sequence' % (start, stop, num, res),
                 what='helper')
@@ -471,6 +473,8 @@ def collocation(rng):
 
 
 def gen(rng, tier, shard, nshards):
+    if shard == 0:
+        yield {'kind': 'ambient-suite'}
     n = 160 if tier == 'quick' else 900
     for i in range(n):
         yield {'kind': 'history', 'seed': rng.randrange(1 << 30), 'steps': rng.randint(12, 40),
@@ -482,6 +486,10 @@ def gen(rng, tier, shard, nshards):
 
 
 def check(case, ctx):
+    if case.get('kind') == 'ambient-suite':
+        from .. import ambient
+        ctx.nontriv(True)
+        return ambient.run_repo_suite(ctx, 'linalg or fit or helpers or curve')
     if case['kind'] == 'history':
         return check_history(case, ctx)
     if case['kind'] == 'fitting':
